@@ -322,9 +322,14 @@ theorem step_strLoop : ∀ (n start : Nat) (a : St), StepN 1 a (strLoop n start 
         have h2 := (step_nextByte_ok false a h).trans h1
         generalize hst1 : (if ((nextByte false a).2.eof || decide ((nextByte false a).1 = 10)) = true
               then syntaxError (nextByte false a).2 else (nextByte false a).2) = st1 at h2
-        have h3 : StepN 1 st1 (if (nextByte false a).1 = 92 then (nextByte false st1).2 else st1) :=
-          step_ite _ (step_nextByte false st1) ((StepN.refl st1).mono (by omega))
-        generalize hst2 : (if (nextByte false a).1 = 92 then (nextByte false st1).2 else st1) = st2 at h3
+        have h3 : StepN 1 st1 (if (nextByte false a).1 = 92 then
+              (if (escapedNewlineIsError && decide ((nextByte false st1).1 = 10)) = true
+                then syntaxError (nextByte false st1).2 else (nextByte false st1).2) else st1) :=
+          step_ite _ (step_ite _ ((step_nextByte false st1).trans (step_syntaxError _)) (step_nextByte false st1))
+            ((StepN.refl st1).mono (by omega))
+        generalize hst2 : (if (nextByte false a).1 = 92 then
+              (if (escapedNewlineIsError && decide ((nextByte false st1).1 = 10)) = true
+                then syntaxError (nextByte false st1).2 else (nextByte false st1).2) else st1) = st2 at h3
         have h4 := h2.trans h3
         by_cases he2 : st2.err = none
         · exact ((h4.free he2).trans (ih start st2)).mono (by omega)
